@@ -35,9 +35,9 @@ AlphaSet ==
   CASE Alpha = "dq"  -> {cBS, cDQ, cNL, cDOLLAR, cLB, cRB, cCOLON, cMINUS, 49, 51, 55, 56, 120, 110, 97, 86, 85, 113}
     [] Alpha = "octal" -> {cBS, cDQ, 49, 51, 55, 56}                 \* \ " 1 3 7 8
     [] Alpha = "octal6" -> {cBS, cDQ, 49, 51, 56}                    \* \ " 1 3 8 : digit runs of four and more, closed
-    [] Alpha = "slash" -> {cSLASH, cHASH, cSTAR, 113, cSP, cNL, cDQ, cEQ}
+    [] Alpha = "slash" -> {cSLASH, cHASH, cSTAR, 113, cSP, cNL, cDQ, cEQ, cBS}   \* (a backslash at the end of a line comment is just a character)
     [] Alpha = "envbody" -> {86, 85, 69, 113, cCOLON, cMINUS, cDOLLAR, cNL}  \* V U E q : - $ and a line end (a reference may span lines)
-    [] Alpha = "dqlines" -> {cBS, cDQ, cNL, cSP, 113, cHASH}
+    [] Alpha = "dqlines" -> {cBS, cDQ, cNL, cSP, 113, cHASH, 13}                  \* (13 = CR: only backslash + LF joins lines)
     [] Alpha = "dqesc" -> {cBS, cDQ, 49, 51, 55, 56, 120, 97, 102, 113}
     [] Alpha = "sq"  -> {cBS, cSQ, cDQ, cNL, cDOLLAR, cLB, cRB, 86, 113, 49}
     [] Alpha = "comment" -> {cSTAR, cSLASH, cNL, cSP, cHASH, 113, cDQ}
